@@ -1520,28 +1520,19 @@ impl<'arena> PrettyFormatter<'arena> {
     }
 
     /// Render a `@[format(verbatim)]` annotation by copying the annotated
-    /// payload's original source text unchanged.
+    /// term's original source text unchanged.
     ///
-    /// The whitespace between the annotation and its payload is copied too,
-    /// so comments or line breaks written there survive exactly. If the
-    /// original source is unavailable, the caller falls back to normal
-    /// formatting.
+    /// The annotation itself and the whitespace between it and its payload
+    /// are copied too, so comments or line breaks written inside the brackets
+    /// or after them survive exactly. If the original source is unavailable,
+    /// the caller falls back to normal formatting.
     fn format_verbatim(
-        &self, term: TermId, meta: &'arena Meta, inner: TermId,
+        &self, term: TermId, _meta: &'arena Meta, inner: TermId,
     ) -> Option<RcDoc<'arena>> {
         let source = self.source?;
         let (outer_start, _) = self.spans[&EntityId::Term(term)].get_cursor1();
-        let (inner_start, inner_end) = self.spans[&EntityId::Term(inner)].get_cursor1();
-        let annotation_end = source
-            .get(outer_start..inner_start)?
-            .rfind(']')?
-            .checked_add(outer_start)?
-            .checked_add(1)?;
-        let boundary = source.get(annotation_end..inner_start)?;
-        let payload = source.get(inner_start..inner_end)?;
-        Some(
-            self.annotation_prefix(meta).append(RcDoc::text(boundary)).append(RcDoc::text(payload)),
-        )
+        let (_, inner_end) = self.spans[&EntityId::Term(inner)].get_cursor1();
+        Some(RcDoc::text(source.get(outer_start..inner_end)?))
     }
 
     /// The complete `@[...]` text of one annotation.
